@@ -28,11 +28,15 @@ META = {
                   "are the corner / neighbour sets; boundary/interior edges and vertices partition the ids by 'a side has no face'. "
                   "With sorting on vertex_to_vertices is proved to be the matching vertex ring (border neighbour first, then the "
                   "half-edge targets of the corner ring); vertex_to_faces / vertex_to_edges / face_to_corners / face_to_faces / "
-                  "face_to_edges are proved element by element. NOT given a spec theorem (covered by query-order independence, "
-                  "the correspondence batches and the oracle only): common_edge, in_face_index, opposite_face with indices, and "
-                  "the uncached reads face_to_vertices / edge_to_vertices / other_edge_end. The model "
+                  "face_to_edges are proved element by element; common_edge, in_face_index, opposite_face with indices, "
+                  "face_to_vertices / edge_to_vertices / other_edge_end have their own spec theorem; the per-case boolean checks "
+                  "(wf_mesh_b, edges_ok_b, corner container = concatenation of the faces) are proved to imply the theorems' "
+                  "hypotheses for the finished object. The model "
                   "is tied to the code by kernel-evaluated correspondence batches: generated manifold surfaces x random scripts of "
-                  "40-60 public queries on a fresh mesh, every answer compared (rings up to rotation, unordered answers as sets).",
+                  "40-60 public queries on a fresh mesh, every answer compared (rings up to rotation, unordered answers as sets); "
+                  "each surface is built through one of 13 construction routes (bare lists, tuples, numpy rows, from_arrays, "
+                  "save+load in three text formats, RawMeshData(mesh) re-wrap with appended faces, subdivision editor, copy, "
+                  "merge) and the model / oracle are fed the finished object's own face list, edge and corner containers.",
     "level_note": "Trusted: Coq kernel + vm_compute; the surface.py/linear.py translator (vf/translate/c01.py); the correspondence "
                   "harness (mesh and script generators, driver canonicalisation: tuples/lists identified, numpy ints/bools cast); "
                   "CPython dict/set/list semantics (set iteration order is not modelled: such answers are compared as sets / up to "
@@ -89,6 +93,8 @@ def query_term(q):
 
 
 def case_term(case, res):
+    # the model is fed the FINISHED object's vertex count, face list, script
+    case = dict(case, nv=res["nv"], faces=res["faces"], script=res["script"])
     faces = coq_list([zlist(F) for F in case["faces"]])
     edges = coq_list(["(%s, %s)" % (zlit(a), zlit(b)) for a, b in res["edges"]])
     corners = coq_list(["(%s, %s)" % (zlit(a), zlit(b)) for a, b in zip(res["corner_elem"], res["corner_adj"])])
@@ -149,11 +155,17 @@ def shrink(case, budget_s=60.0):
     import time
     t0 = time.time()
     cur = {k: v for k, v in case.items() if k != "info"}
-    m, _ = fails_case(cur)
-    if m is None:
+    m, res = fails_case(cur)
+    if m is None or "script" not in res:
         return cur
-    if m[0] >= 0:
-        cur["script"] = cur["script"][:m[0] + 1]
+    cur["script"] = res["script"][:m[0] + 1] if m[0] >= 0 else res["script"][:1]   # explicit from now on
+    cur.pop("script_seed", None)
+    same_faces = ("list", "tuple", "numpy", "from_arrays", "obj", "geogram", "rewrap", "copy", "copy_conn")
+    if cur.get("route", "list") != "list":
+        # does the failure depend on the construction route at all?
+        plain = dict(cur, route="list", nv=res["nv"], faces=res["faces"])
+        if fails_case(plain)[0] is not None:
+            cur = plain
     # 1. the failing query alone, else drop one query at a time (batched)
     while len(cur["script"]) > 1 and time.time() - t0 < budget_s:
         sc = cur["script"]
@@ -163,8 +175,8 @@ def shrink(case, budget_s=60.0):
         if not hit:
             break
         cur = min(hit, key=lambda c: len(c["script"]))
-    # 2. drop faces (batched, one face per round; half of the faces first)
-    while len(cur["faces"]) > 1 and time.time() - t0 < budget_s:
+    # 2. drop faces (batched, one face per round; half of the faces first) - only where the finished face list is the given one
+    while cur.get("route", "list") in same_faces and len(cur["faces"]) > 1 and time.time() - t0 < budget_s:
         fs = cur["faces"]
         cands = []
         h = len(fs) // 2
@@ -191,10 +203,22 @@ def classify(case, msg):
 
 
 # ---------------------------------------------------------------------- the check
+ROUTE_WEIGHTS = [("list", 30), ("tuple", 5), ("numpy", 6), ("from_arrays", 4), ("obj", 6), ("medit", 5), ("geogram", 5),
+                 ("rewrap", 12), ("triangulate", 7), ("loop", 4), ("copy", 5), ("copy_conn", 5), ("merge", 6)]
+
+
 def gen_case(rng, max_faces):
-    mesh, info = G.gen_mesh(rng, max_faces=max_faces)
-    script = G.gen_script(rng, mesh)
-    return dict(mesh, sort=rng.random() < 0.65, script=script, info=info)
+    route = rng.choices([r for r, _ in ROUTE_WEIGHTS], [w for _, w in ROUTE_WEIGHTS])[0]
+    mf = max_faces
+    if route == "loop":
+        mf = max(4, max_faces // 6)      # 1 -> 4 subdivision after triangulation
+    elif route == "triangulate":
+        mf = max(4, max_faces // 2)
+    size = None
+    if route == "from_arrays":           # needs one arity: grids / triangulated seeds without edits are the usual source
+        size = rng.choice(["tiny", "mid"])
+    mesh, info = G.gen_mesh(rng, size=size, max_faces=mf)
+    return dict(mesh, route=route, sort=rng.random() < 0.65, script_seed=rng.randrange(1 << 30), info=info)
 
 
 def small_meshes(nv=5, max_faces=4):
@@ -219,14 +243,17 @@ def sweep_case(rng, mesh, sort):
     script = [q for q in script if q[0] not in ("clear", "clear_boundary_data")]
     script += [[nm, v] for v in range(nv) for nm in ("vertex_to_corners", "vertex_to_vertices", "vertex_to_faces", "is_vertex_on_border")]
     rng.shuffle(script)
-    return dict(mesh, sort=sort, script=script, info={"seed_kind": "exhaustive<=4tri/5v", "size": "tiny", "edits": []})
+    return dict(mesh, route="list", sort=sort, script=script, info={"seed_kind": "exhaustive<=4tri/5v", "size": "tiny", "edits": []})
 
 
 def run(ctx):
     quick = ctx.tier == "quick"
     n_cases = 600 if quick else 4000
     max_faces = 80 if quick else 140
-    ctx.rule = ("generated oriented manifold polygon surfaces (seeds triangle/quad/polygon/tetra/octahedron/cube/grid/"
+    ctx.rule = ("each surface built through one of 13 construction routes (bare lists, tuples, numpy rows, from_arrays, save+load "
+                ".obj/.mesh/.geogram_ascii, RawMeshData(mesh) re-wrap with appended faces, SurfaceSubdivision triangulate / "
+                "loop_subdivision, copy with/without connectivity, merge) and queried as the FINISHED object; "
+                "generated oriented manifold polygon surfaces (seeds triangle/quad/polygon/tetra/octahedron/cube/grid/"
                 "triangulated grid/annulus/torus/unions, random manifold-preserving edits, random renumbering, face rotation, "
                 "face shuffle) x a fresh mesh x a random script of 40-60 public queries with config.sort_neighborhoods on/off. "
                 "Non-trivial = the mesh has at least one border and one interior vertex, or genus > 0 (closed with chi <= 0), "
@@ -262,7 +289,15 @@ def run(ctx):
     ctx.log("implementation driven on all cases")
 
     for c, r in zip(cases, results):
-        st = G.mesh_stats(c)
+        if "crash" in r:
+            ctx.count("build crashed")
+            ctx.case_seen([c["faces"], c.get("route"), c["sort"]], nontrivial=False)
+            continue
+        ctx.count("route=%s" % r.get("route"))
+        if r.get("note"):
+            ctx.count("route output not manifold -> rebuilt from the bare list")
+        fin = {"nv": r["nv"], "faces": r["faces"]}
+        st = G.mesh_stats(fin)
         ctx.count("faces<=%d" % (10 * ((st["nf"] + 9) // 10)))
         ctx.count("sort=%s" % c["sort"])
         ctx.count("border_loops=%d" % min(st["border_loops"], 4))
@@ -274,14 +309,14 @@ def run(ctx):
         ctx.count("seed=%s" % info.get("seed_kind", "corpus"))
         for e in info.get("edits", []):
             ctx.count("edit=" + e)
-        for q, o in zip(c["script"], r.get("obs", [])):
+        for q, o in zip(r["script"], r.get("obs", [])):
             ctx.count("query " + q[0])
             if o[0] in ("err", "other"):
                 ctx.count("answer %s %s" % (o[0], o[1] if o[0] == "err" else ""))
         nontrivial = (st["border_vertices"] > 0 and st["interior_vertices"] > 0) or st["border_loops"] == 0
-        ctx.case_seen([c["faces"], c["sort"], c["script"]], nontrivial=nontrivial,
-                      sample={"nv": c["nv"], "faces": c["faces"][:6], "sort": c["sort"], "script": c["script"][:6],
-                              "observed": r.get("obs", [])[:6]})
+        ctx.case_seen([r["faces"], r.get("route"), c["sort"], r["script"]], nontrivial=nontrivial,
+                      sample={"route": r.get("route"), "nv": r["nv"], "faces": r["faces"][:6], "sort": c["sort"],
+                              "script": r["script"][:6], "observed": r.get("obs", [])[:6]})
 
     # 1. independent oracle on every case = search for a concrete failing input
     fails = []
@@ -315,7 +350,7 @@ def run(ctx):
     t_shrink = _time.time()
     for idx, msg in fails[:50]:
         case = cases[idx]
-        key = classify(case, msg)
+        key = classify(dict(case, script=results[idx].get("script", case.get("script", []))), msg)
         if key in reported or len(reported) >= 3:
             continue
         reported.add(key)
@@ -324,12 +359,13 @@ def run(ctx):
             continue
         small = shrink(case, budget_s=max(5.0, 45.0 - (_time.time() - t_shrink)))
         m2, res2 = fails_case(small)
-        ctx.violation("surface connectivity: " + (m2[1] if m2 else msg[1]),
-                      {"case": small, "observed": res2.get("obs"), "class": key}, key=key)
+        ctx.violation("surface connectivity (mesh built through route '%s'): " % small.get("route", "list") + (m2[1] if m2 else msg[1]),
+                      {"case": small, "finished_faces": res2.get("faces"), "observed": res2.get("obs"), "class": key}, key=key)
     if bad and not fails:
         ctx.notes.append("model and implementation disagree on cases %s but the oracle accepts the implementation's answers" % bad[:5])
         for i in bad[:3]:
-            ctx.log("disagreement on case", i, json.dumps({k: v for k, v in cases[i].items() if k != "info"})[:1500])
+            ctx.log("disagreement on case", i, json.dumps({k: v for k, v in cases[i].items() if k != "info"})[:800],
+                    "route", results[i].get("route"), "script", json.dumps(results[i].get("script"))[:400])
 
 
 def replay(ctx, data):
